@@ -5,7 +5,7 @@ exit 0 iff every stable_pass name passes."""
 import json, os, subprocess, sys, glob, tempfile, re
 from concurrent.futures import ThreadPoolExecutor
 
-B = '/repo/_build'
+B = os.environ.get('VERIF_BUILD_DIR', '/repo/_build')
 def main():
     r = subprocess.run(['cmake', '--build', B], stdout=subprocess.PIPE, stderr=subprocess.STDOUT, text=True)
     if r.returncode != 0:
